@@ -169,6 +169,7 @@ class Scn:
     state_field: str = "state"
     extra_events: dict = field(default_factory=dict)   # event id >= 100 -> arbitrary name (never declared)
     model_shape: str = "plain"                    # plain | len0 | boolF  (falsy model objects)
+    sids: list = field(default_factory=list)      # state ids (attribute names) when they are not s0, s1, ...
     bind_model: bool = False                      # `sm.bind_events_to(model)` right after construction
     alias_sub: list = field(default_factory=list) # [e1, e2]: event e1 is a class attribute of a base class and the
                                                   # machine is `class Sub(Base): <e2> = Base.<e1>`: the transitions
@@ -195,7 +196,7 @@ class Scn:
         return ["machine", "model"] + list(self.listeners_ctor)
 
     def sid(self, i):
-        return f"s{i}"
+        return self.sids[i] if self.sids else f"s{i}"
 
 
 def _prio(cb: Cb):
@@ -560,6 +561,8 @@ class Runtime:
         sid = getattr(st, "id", "")
         if not sid:
             return "-"
+        if self.scn.sids and sid in self.scn.sids:
+            return str(self.scn.sids.index(sid))
         return str(int(sid[1:])) if sid[0] == "s" and sid[1:].isdigit() else sid
 
     def ev_id(self, ev):
